@@ -61,6 +61,22 @@ inductive Msg where
   | stopTouch
   deriving Repr, BEq
 
+/-- What the `RingingRoomTower` handler of a message does to the view (before any callback runs). -/
+def Tower.apply (t : Tower) : Msg → Tower
+  | .bellRung state _ => { t with bellState := state }
+  | .globalState state => { t with bellState := state }
+  | .userEntered id name => { t with userNames := alSet t.userNames id name }
+  | .userList users => { t with userNames := users.foldl (fun m (id, name) => alSet m id name) t.userNames }
+  | .sizeChange n =>
+    if n != t.size then
+      { t with assigned := t.assigned.filter (fun p => p.1 ≤ n), bellState := List.replicate n true }
+    else t
+  | .assign bell user =>
+    if user == 0 then { t with assigned := alErase t.assigned bell }
+    else { t with assigned := alSet t.assigned bell user }
+  | .userLeft id => { t with assigned := t.assigned.filter (fun p => p.2 != id) }
+  | _ => t
+
 /-! ### Bot -/
 
 inductive Out where
@@ -347,32 +363,17 @@ def foldSettings (b : Bot) : List (String × SVal) → Bot × List Out
     (b2, o1 ++ o2)
 
 /-- One server message delivered to its handler(s): the `RingingRoomTower` handler updates the
-view and then runs the Bot's callbacks. -/
-def Bot.onMsg (b : Bot) : Msg → Bot × List Out
-  | .bellRung state who =>
-    let b1 := { b with tower := { b.tower with bellState := state } }
-    match b1.tower.getStroke who with
-    | none => (b1, [])
-    | some newStroke => if b1.userAssigned who then (b1, [.rBellRing who (!newStroke)]) else (b1, [])
-  | .globalState state =>
-    { b with tower := { b.tower with bellState := state } }.onSizeChange
-  | .userEntered id name =>
-    ({ b with tower := { b.tower with userNames := alSet b.tower.userNames id name } }, [])
-  | .userList users =>
-    ({ b with tower := { b.tower with
-        userNames := users.foldl (fun m (id, name) => alSet m id name) b.tower.userNames } }, [])
-  | .sizeChange n =>
-    if n != b.n then
-      { b with tower := { b.tower with
-          assigned := b.tower.assigned.filter (fun p => p.1 ≤ n),
-          bellState := List.replicate n true } }.onSizeChange
-    else (b, [])
-  | .assign bell user =>
-    if user == 0 then ({ b with tower := { b.tower with assigned := alErase b.tower.assigned bell } }, [])
-    else ({ b with tower := { b.tower with assigned := alSet b.tower.assigned bell user } }, [])
+view (`Tower.apply`) and then runs the Bot's callbacks. -/
+def Bot.onMsg (b0 : Bot) (m : Msg) : Bot × List Out :=
+  let b : Bot := { b0 with tower := b0.tower.apply m }
+  match m with
+  | .bellRung _ who =>
+    match b.tower.getStroke who with
+    | none => (b, [])
+    | some newStroke => if b.userAssigned who then (b, [.rBellRing who (!newStroke)]) else (b, [])
+  | .globalState _ => b.onSizeChange
+  | .sizeChange n => if n != b0.n then b.onSizeChange else (b, [])
   | .call c => b.onCall c
-  | .userLeft id =>
-    ({ b with tower := { b.tower with assigned := b.tower.assigned.filter (fun p => p.2 != id) } }, [])
   | .setting kvs => if b.serverMode then foldSettings b kvs else (b, [])
   | .rowGen g =>
     if b.serverMode then
@@ -382,6 +383,7 @@ def Bot.onMsg (b : Bot) : Msg → Bot × List Out
     else (b, [])
   | .stopTouch =>
     if b.serverMode then ({ b with isRinging := false }, [.setIsRinging false, .rReturn]) else (b, [])
+  | _ => (b, [])
 
 /-- First half of `tick()`: the bell of this place and who controls it, sampled *before* the
 rhythm wait.  `none` = `IndexError`. -/
